@@ -382,10 +382,16 @@ def shoot(
     ):
         maxlen = ens_set["tis_set"]["maxlength"]
     else:
-        maxlen = min(
-            int((path.length - 2) / ens_set["rgen"].random()) + 2,
-            ens_set["tis_set"]["maxlength"],
-        )
+        # the generator draws from [0, 1): a draw of exactly 0 puts no
+        # detailed-balance bound on the length (and must not divide by zero).
+        rand = ens_set["rgen"].random()
+        if rand == 0:
+            maxlen = ens_set["tis_set"]["maxlength"]
+        else:
+            maxlen = min(
+                int((path.length - 2) / rand) + 2,
+                ens_set["tis_set"]["maxlength"],
+            )
     # Since the forward path must be at least one step, the maximum
     # length for the backward path is maxlen-1.
 
